@@ -385,7 +385,11 @@ SEQUENCES = {
     "[c1,c2] - remove 3 (absent)": ((1, 2), (("remove", 3),), (1, 2)),
     "[c1,c2], compiled twice": ((1, 2), (("compile",),), (1, 2)),
     "[c1] + add c2 - remove 2 + add c2": ((1,), (("add", 2), ("remove", 2), ("add", 2)), (1, 2)),
+    # another conditional under a number that was in use before (3 stands for "the new conditional, numbered 2"): whatever
+    # the model remembers of the old number 2 - also a compilation it handed out - must be gone
+    "[c1,c2], compiled, - remove 2 + add another conditional as 2": ((1, 2), (("compile",), ("remove", 2), ("add", 3)), (1, 3)),
 }
+ALIAS = {3: 2}  # conditional 3 of the instantiation carries index 2
 
 
 def model_sequences(rep, ex: Explorer, nworlds=2, only=None):
@@ -402,6 +406,9 @@ def model_sequences(rep, ex: Explorer, nworlds=2, only=None):
         def setup(I, init=init, ops=ops):
             rf = mkrf_concrete(I, nworlds)
             conds = {k: mkcond(I, k) for k in (1, 2)}
+            c3 = mkcond(I, 3)
+            I.deref(c3).attrs["index"] = Const(ALIAS[3])
+            conds[3] = c3
             m = I.alloc(HObj(CM, {}))
             I.call_function(ex.prog.function(CM + ".__init__"), [m, rf, I.new_list([conds[k] for k in init])], {}, None)
             for op in ops:
@@ -427,7 +434,10 @@ def model_sequences(rep, ex: Explorer, nworlds=2, only=None):
             if p.outcome[0] != "return":
                 bad = bad or (f"outcome {p.outcome[0]} {p.outcome[1]!r}"[:160], "return", {})
                 continue
-            masked, envs = _path_envs(p, worlds, (1, 2))
+            if 3 in final and any(k_[0] == "masknone" and v_ is False for k_, v_ in p.decisions):
+                continue  # (the literal fast path names its tests by the conditional's number: the old and the new number 2
+                #            cannot be told apart there; this sequence is judged on the solver path)
+            masked, envs = _path_envs(p, worlds, (1, 2, 3) if 3 in final else (1, 2))
             rv = p.outcome[1]
             if not (isinstance(rv, TupleV) and len(rv.items) == 2):
                 bad = bad or (repr(rv)[:100], "(vMin, fMin)", {})
@@ -437,6 +447,9 @@ def model_sequences(rep, ex: Explorer, nworlds=2, only=None):
                 gv = extracted_lists(p.state, rv.items[0], env)
                 gf = extracted_lists(p.state, rv.items[1], env)
                 sv, sf = spec_lists(worlds, final, env)
+                if 3 in final:
+                    ren = lambda k_: ALIAS.get(k_, k_)  # noqa: E731
+                    sv, sf = [{ren(k_): sorted([(t[0], tuple(sorted(map(ren, t[1]))), tuple(sorted(map(ren, t[2])))) for t in ts], key=repr) for k_, ts in d_.items()} for d_ in (sv, sf)]
                 if (gv, gf) != (sv, sf) and bad is None:
                     side = "vMin" if gv != sv else "fMin"
                     g, w = (gv, sv) if gv != sv else (gf, sf)
